@@ -22,7 +22,11 @@ MANIFEST = dict(
           "on every consistent heap they never fail and equal the tree-level mirror on the tree read off the children lists "
           "(heap_allStrings_eq_tree/eq_spec/document_order, heap_getText, heap_string_sole_chain, heap_string_eq_tree, toNode_is_the_tree), "
           "and by C01's theorems every parsed document edited by any finite history of the fourteen editing calls is such a heap "
-          "(parsed_then_edited_text, built_then_edited_text) - the pre-order of the chain is derived, not assumed. CONFIGURATION: "
+          "(parsed_then_edited_text, built_then_edited_text) - the pre-order of the chain is derived, not assumed; the generator "
+          "protocol (successor read before the yield): extracting the string just handed out never ends or derails the iteration "
+          "(iteration_survives_extract, from C01's cut witness), for the other editing calls only under a frame hypothesis "
+          "(iteration_survives_framed_edits_partial; run differentially). CONFIGURATION: a Tag subclass's own "
+          "MAIN_CONTENT_STRING_TYPES (subclass_main), pickling (pickle_keeps_config), "
           "TreeBuilder's string_containers option (omitted / dict incl. empty / None), Tag.__init__ with and without a builder, new_tag, "
           "Tag.copy_self, BeautifulSoup.copy_self, copies of trees, nested containers (config_option, tag_init_cases, "
           "empty_config_all_ordinary, builderless_tag_counts_main, copy_same_text, soup_copy_root_from_builder, "
@@ -35,8 +39,10 @@ MANIFEST = dict(
           "set/frozenset/dict/one-shot iterator), custom string_containers (incl. builder tables in which one name is both a string container and "
           "whitespace-preserving, and void elements as containers: text before, inside and after such elements, nested and re-opened, "
           "against the nearest-open-container rule and against C03's machine run with builderCfg) and hand-set "
-          "interesting_string_types, copies, "
-          "ask-edit-ask sequences, real edit histories against the pointer-heap model; against the Lean mirrors, the Lean evaluator "
+          "interesting_string_types, Tag/BeautifulSoup subclasses overriding MAIN_CONTENT_STRING_TYPES (element_classes), copies, "
+          "pickle round trips under every configuration, ask-edit-ask sequences, real edit histories against the pointer-heap model, "
+          "iterations of .strings/_all_strings in which the consumer edits each string as it is handed out (extract, decompose, "
+          "replace_with, insert_before/after, wrap) against the generator-protocol mirror and the snapshot oracle; against the Lean mirrors, the Lean evaluator "
           "and an independent Python evaluator over .contents (object identity of the yielded strings included)."),
     design="7/C13",
     note=("Edits in the tree streams are single-argument API calls; the heap stream uses heapsim's histories (all fourteen calls, "
@@ -94,6 +100,27 @@ def E():
     class SubCData(el.CData):
         pass
     subs = [SubNS, SubComment, SubScript, SubCData]
+
+    # Tag / BeautifulSoup subclasses with their own MAIN_CONTENT_STRING_TYPES (an interesting-type configuration installed
+    # through element_classes={Tag: …} or by constructing the subclass); `_verif_main` is the harness' own record of it
+    class TagCountingComments(el.Tag):
+        MAIN_CONTENT_STRING_TYPES = {el.NavigableString, el.CData, el.Comment}
+        _verif_main = ("NavigableString", "CData", "Comment")
+
+    class TagOnlyComments(el.Tag):
+        MAIN_CONTENT_STRING_TYPES = frozenset([el.Comment])
+        _verif_main = ("Comment",)
+
+    class SoupCountingDoctypes(bs4.BeautifulSoup):
+        MAIN_CONTENT_STRING_TYPES = {el.NavigableString, el.Doctype}
+        _verif_main = ("NavigableString", "Doctype")
+    tagsubs = [TagCountingComments, TagOnlyComments, SoupCountingDoctypes]
+    # make every harness class picklable by reference (pickle round trips of documents are part of the check)
+    for k in subs + tagsubs:
+        k.__module__ = __name__
+        k.__qualname__ = k.__name__
+        globals()[k.__name__] = k
+    _E["tagsubs"] = {k.__name__: k for k in tagsubs}
     for s in subs:
         cls[s.__name__] = s
     _E["cls"] = cls
@@ -126,7 +153,7 @@ def show_pieces(l) -> str:
 # configurations (string_containers passed to the builder)
 # --------------------------------------------------------------------------------------
 CONFIGS = ["default", "default", "default", "empty", "b-sub", "default+", "script-plain", "overlap-pre", "overlap-script",
-           "overlap-void"]
+           "overlap-void", "tagsub", "tagsub-only+b", "soupsub"]
 DEFAULT_PRESERVE = ("pre", "textarea")
 VOID = ("br", "hr")
 
@@ -158,6 +185,12 @@ def config_containers(name):
     if name == "script-plain":
         d = {"script": "NavigableString", "style": "Stylesheet", "span": "Doctype"}
         return {"string_containers": {k: c[v] for k, v in d.items()}}, d
+    if name == "tagsub":
+        return {"element_classes": {E()["el"].Tag: E()["tagsubs"]["TagCountingComments"]}}, dict(PROP_CONTAINERS)
+    if name == "tagsub-only+b":
+        return {"element_classes": {E()["el"].Tag: E()["tagsubs"]["TagOnlyComments"]}, "string_containers": {"b": c["SubNS"]}}, {"b": "SubNS"}
+    if name == "soupsub":
+        return {"element_classes": {E()["el"].Tag: E()["tagsubs"]["TagCountingComments"]}}, dict(PROP_CONTAINERS)
     if name == "overlap-pre":
         d = dict(PROP_CONTAINERS) | {"pre": "SubNS"}
         return {"string_containers": {k: c[v] for k, v in d.items()}}, d
@@ -169,11 +202,28 @@ def config_containers(name):
     raise KeyError(name)
 
 
-def expected_interesting(sc: dict, name: str):
-    """property statement: the element's own special class when it is a string container, else text + CDATA"""
+def config_ctor(name):
+    """the class the document is constructed with"""
+    return E()["tagsubs"]["SoupCountingDoctypes"] if name == "soupsub" else E()["BeautifulSoup"]
+
+
+def class_main(tag_or_class):
+    """what the element's CLASS counts as main content: NavigableString + CData for stock Tag/BeautifulSoup (the property
+    statement), the harness' own record for the harness' subclasses"""
+    k = tag_or_class if isinstance(tag_or_class, type) else type(tag_or_class)
+    return getattr(k, "_verif_main", PROP_MAIN)
+
+
+def expected_interesting(sc: dict, name: str, main=PROP_MAIN):
+    """property statement: the element's own special class when it is a string container, else what its class counts as main
+    content (text + CDATA unless a Tag subclass says otherwise)"""
     if name in sc:
         return ("many", (sc[name],))
-    return ("many", PROP_MAIN)
+    return ("many", tuple(main))
+
+
+def exp_for(tag, sc):
+    return expected_interesting(sc, tag.name, class_main(tag))
 
 
 # --------------------------------------------------------------------------------------
@@ -320,11 +370,13 @@ def apply_op(soup, sc, op):
 
     def mktag(name, via):
         if via == "bare":
-            t = e["el"].Tag(name=name)
-            set_exp(t, None)  # no builder: interesting_string_types None -> main content classes
+            # no builder: interesting_string_types None -> what the tag's class counts as main content
+            k = soup.element_classes.get(e["el"].Tag, e["el"].Tag) if getattr(soup, "element_classes", None) else e["el"].Tag
+            t = k(name=name)
+            set_exp(t, None if class_main(t) == PROP_MAIN else ("noneOf", class_main(t)))
         else:
             t = soup.new_tag(name)
-            set_exp(t, expected_interesting(sc, name))
+            set_exp(t, exp_for(t, sc))
         return t
 
     def place(new, parent, pos, how):
@@ -417,7 +469,11 @@ def apply_op(soup, sc, op):
             return False
         spec = None if spec is None else tuple(spec)
         t.interesting_string_types = interesting_value(spec)
-        set_exp(t, None if spec is None else (spec[0], tuple(spec[1])))
+        if spec is None:
+            # None: _all_strings falls back to what the tag's CLASS counts as main content
+            set_exp(t, None if class_main(t) == PROP_MAIN else ("noneOf", class_main(t)))
+        else:
+            set_exp(t, (spec[0], tuple(spec[1])))
         return True
     if kind == "wrap":
         _, ni, name = op
@@ -506,10 +562,10 @@ def build(recipe):
     """recipe -> soup with the expected interesting types recorded on every tag"""
     e = E()
     kwargs, sc = config_containers(recipe["config"])
-    soup = e["BeautifulSoup"](recipe["markup"], "html.parser", **kwargs)
+    soup = config_ctor(recipe["config"])(recipe["markup"], "html.parser", **kwargs)
     for t in all_nodes(soup):
         if is_tag(t):
-            set_exp(t, expected_interesting(sc, t.name))
+            set_exp(t, exp_for(t, sc))
     warm = recipe.get("warm")
     for i, op in enumerate(recipe.get("ops", [])):
         if warm is not None and i == warm:
@@ -526,11 +582,84 @@ def copied_soup_config_failures(cl, sc):
     c = E()["cls"]
     bad = []
     for nm in sorted(set(list(sc) + list(PROP_CONTAINERS) + ["p", "b"])):
-        got = int_tok_of_value(cl.new_tag(nm).interesting_string_types)
-        want = int_tok_of_value({c[n] for n in expected_interesting(sc, nm)[1]})
+        t = cl.new_tag(nm)
+        got = int_tok_of_value(t.interesting_string_types)
+        want = int_tok_of_value({c[n] for n in exp_for(t, sc)[1]})
         if got != want:
             bad.append((nm, got, want))
     return bad
+
+
+TREE_EDITS = ["extract", "decompose", "replace_str", "replace_plain", "replace_comment", "replace_tag", "wrap", "insert_after",
+              "insert_before", "insert_after_tag", "nothing"]
+
+
+def node_at(soup, path):
+    n = soup
+    for i in path:
+        n = n.contents[i]
+    return n
+
+
+def tree_iter_run(soup, path, tspec, edits):
+    """for s in el.strings / el._all_strings(False, types): <edit s> -> (texts handed out, texts demanded, ok by identity).
+    Demanded: exactly the interesting strings that were beneath the element when the iteration started, in document order —
+    the edits only touch the string just handed out (and add new nodes next to it), so none is removed before it is reached."""
+    e = E()
+    c = e["cls"]
+    el_ = node_at(soup, path)
+    root = el_
+    while root.parent is not None:
+        root = root.parent
+    maker = root if hasattr(root, "new_tag") else e["BeautifulSoup"]("", "html.parser")
+    sel = o_selector(el_, norm_tspec(tspec))
+    want = [x for x in o_strings_below(el_) if sel(type(x))]
+    want_txt = [str.__str__(x) for x in want]
+    kw = {} if tspec[0] == "d" else {"types": e["el"].PageElement.default if tspec[0] == "D" else types_value(tspec)}
+    it = el_.strings if tspec[0] == "d" else el_._all_strings(False, **kw)
+    got, got_txt = [], []
+    k = 0
+    try:
+        for x in it:
+            got.append(x)
+            got_txt.append(str.__str__(x))
+            ed = edits[k % len(edits)]
+            k += 1
+            if k > 500:
+                got_txt.append("<unbounded>")
+                break
+            if x.parent is None:
+                continue
+            if ed == "extract":
+                x.extract()
+            elif ed == "decompose":
+                x.decompose()
+            elif ed == "replace_str":
+                x.replace_with(c["NavigableString"](f"new{k}"))
+            elif ed == "replace_plain":
+                x.replace_with(f"plain{k}")
+            elif ed == "replace_comment":
+                x.replace_with(c["Comment"](f"newc{k}"))
+            elif ed == "replace_tag":
+                t = maker.new_tag("b")
+                t.string = f"inb{k}"
+                x.replace_with(t)
+            elif ed == "wrap":
+                x.wrap(maker.new_tag("i"))
+            elif ed == "insert_after":
+                x.insert_after(c["NavigableString"](f"after{k}"))
+            elif ed == "insert_before":
+                x.insert_before(c["NavigableString"](f"before{k}"))
+            elif ed == "insert_after_tag":
+                t = maker.new_tag("b")
+                t.string = f"inb{k}"
+                x.insert_after(t)
+    except RecursionError:
+        raise
+    except Exception as ex:   # the iteration itself raised after an edit
+        got_txt.append(f"<raised {type(ex).__name__}>")
+    ok = len(got) == len(want) and all(a is b for a, b in zip(got, want)) and len(got_txt) == len(got)
+    return got_txt, want_txt, ok
 
 
 def warm_up(soup):
@@ -548,6 +677,15 @@ def apply_post(soup, post, sc):
     """a copy of the whole document or of one element becomes the tree under test; the copy must keep the configuration
     (interesting_string_types of every tag, class of every string) of the original, element by element"""
     kind = post[0]
+    if kind == "pickle":
+        # __getstate__ stores the rendered markup and (html.parser: picklable) the builder WITH its configuration; __setstate__
+        # parses the markup again with it: the result is a freshly parsed document under the same configuration
+        import pickle
+        cl = pickle.loads(pickle.dumps(soup, post[1] if len(post) > 1 else pickle.DEFAULT_PROTOCOL))
+        for t in all_nodes(cl):
+            if is_tag(t):
+                set_exp(t, exp_for(t, sc))
+        return cl
     if kind == "copy_soup":
         cl = copy.copy(soup)
         src = soup
@@ -565,7 +703,7 @@ def apply_post(soup, post, sc):
     if kind in ("copy_soup", "deepcopy_soup"):
         # BeautifulSoup.copy_self() makes a new BeautifulSoup object from the same builder: the root's own
         # interesting_string_types is the builder's again (a value set by hand on the original root is not carried over)
-        set_exp(cl, expected_interesting(sc, cl.name))
+        set_exp(cl, exp_for(cl, sc))
     return cl
 
 
@@ -872,6 +1010,8 @@ def interesting_tok(exp):
     if exp is None:
         return "N"
     codes = [str(cls_code(e["cls"][n])) for n in exp[1]]
+    if exp[0] == "noneOf":
+        return "n" + (".".join(codes) if codes else "-")
     if exp[0] == "one":
         return "o" + codes[0]
     return "m" + (".".join(codes) if codes else "-")
@@ -910,7 +1050,9 @@ def parent_kind(tag, sc):
     exp = get_exp(tag)
     if exp is None:
         return "bare"
-    if exp == expected_interesting(sc, tag.name):
+    if exp[0] == "noneOf":
+        return "bare"
+    if exp == exp_for(tag, sc):
         return "container" if tag.name in sc else "ordinary"
     return "custom"
 
@@ -1075,7 +1217,7 @@ def ancestor_rule_failures(soup, sc):
     return bad
 
 
-RULE_CONFIGS = ("default", "empty", "b-sub", "overlap-pre", "overlap-script", "overlap-void")  # container classes disjoint from the classes the builder assigns itself
+RULE_CONFIGS = ("default", "empty", "b-sub", "overlap-pre", "overlap-script", "overlap-void", "tagsub", "tagsub-only+b", "soupsub")  # container classes disjoint from the classes the builder assigns itself
 
 
 def check_ancestor_rule(ctx, recipe, soup, sc, stream):
@@ -1170,16 +1312,47 @@ def stream_random(ctx, batch, n_trees):
             if len(recipe3["ops"]) > recipe3["warm"] and len(all_nodes(soup3)) <= 120:
                 ctx.count("tree:asked-edited-asked")
                 check_tree(ctx, batch, recipe3, soup3, sc3, "ask-edit-ask", random_plan(r, 2), 7_000_000 + ti)
+        if r.random() < 0.35:
+            cands = [p for n, p in paths(soup) if is_tag(n) and sum(1 for _ in o_strings_below(n)) >= 2]
+            if cands:
+                target = r.choice(cands)
+                below = [x for x in o_strings_below(node_at(soup, target))]
+                tspec = r.choice([("d",), ("d",), ("n",), rand_tspec_noiter(r, list(dict.fromkeys(type(x) for x in below)))])
+                edits = [r.choice(TREE_EDITS) for _ in range(r.randint(1, 4))]
+                recipe4 = dict(recipe, iter={"path": list(target), "types": types_desc(tspec), "edits": edits})
+                soup4, sc4 = build(recipe)
+                got, want, ok = tree_iter_run(soup4, target, tspec, edits)
+                ctx.case(("TITER", ti))
+                ctx.count("tree-iter:runs")
+                for ed in edits:
+                    ctx.count("tree-iter:edit-" + ed)
+                if not ok and sum(1 for v in ctx.violations if v["stream"] == "tree-iter") < 6:
+                    ctx.violation("iterating the strings of an element while editing each string as it is handed out does not yield exactly "
+                                  "the interesting strings that were beneath the element, in document order", case={"op": "tree-iter", "recipe": recipe4},
+                                  expected=want, observed=got, stream="tree-iter")
         if r.random() < 0.2:
             tags = [p for n, p in paths(soup) if is_tag(n) and p]
             k = r.random()
-            post = ["copy_soup"] if k < 0.3 else ["deepcopy_soup"] if k < 0.45 else \
+            post = ["pickle", r.choice((2, 4, 5))] if k < 0.3 else ["copy_soup"] if k < 0.45 else ["deepcopy_soup"] if k < 0.55 else \
                 ([r.choice(("deepcopy", "copy")), list(r.choice(tags))] if tags else ["copy_soup"])
             recipe2 = dict(recipe, post=post)
-            cl = apply_post(soup, post, sc)
+            try:
+                cl = apply_post(soup, post, sc)
+            except RecursionError:
+                raise
+            except Exception as ex:
+                if post[0] != "pickle":
+                    raise
+                # a document that cannot be pickled / re-parsed at all is not a text-extraction outcome (C05/C11/C06)
+                ctx.count("pickle:failed-" + type(ex).__name__)
+                continue
             ctx.count("tree:copy-" + post[0])
+            if len(all_nodes(cl)) > 150:
+                continue
             check_tree(ctx, batch, recipe2, cl, sc, "copies", random_plan(r, 2), 6_000_000 + ti)
-            if post[0] in ("copy_soup", "deepcopy_soup"):
+            if post[0] == "pickle":
+                check_ancestor_rule(ctx, recipe2, cl, sc, "pickle")
+            if post[0] in ("copy_soup", "deepcopy_soup", "pickle"):
                 bad = copied_soup_config_failures(cl, sc)
                 ctx.case(None)
                 if bad and sum(1 for v in ctx.violations if v["stream"] == "copies-config") < 4:
@@ -1367,24 +1540,44 @@ def stream_config(ctx):
                 except TypeError:
                     ctx.count("config:soup-TypeError")
                     soup = None
+            if soup is not None:
+                # pickle round trip: the (picklable) builder travels with the document, configuration included
+                import pickle
+                try:
+                    up = pickle.loads(pickle.dumps(soup))
+                    got_up = up.builder.string_containers
+                    lines.append(f"c13 pickledsc {1 if b.picklable else 0} {sc_tok(live_dflt)} {'N' if got_sc is None else 'D:' + sc_tok(got_sc)}")
+                    real.append("none" if got_up is None else "some " + sc_tok(got_up))
+                    cases.append({"op": "config", "what": "pickle", "builder": bcls.__name__, "arg": argname})
+                    ctx.case(("PICKLE", argtok))
+                    if got_up != got_sc:
+                        ctx.violation("a pickled and unpickled document lost its builder's string_containers configuration", case=cases[-1],
+                                      expected=sc_tok(got_sc), observed=sc_tok(got_up), stream="config")
+                except RecursionError:
+                    raise
+                except Exception as ex:
+                    ctx.count("config:pickle-failed-" + type(ex).__name__)
             for nm in names:
                 for ptok, pval in params:
-                    for mode in ("builder", "bare"):
+                    for mode, K in (("builder", Tag), ("bare", Tag), ("builder", e["tagsubs"]["TagCountingComments"]),
+                                    ("builder", e["tagsubs"]["TagOnlyComments"]), ("bare", e["tagsubs"]["TagOnlyComments"])):
                         kw = {} if ptok == "omit" else {"interesting_string_types": pval}
                         try:
-                            t = Tag(builder=b, name=nm, **kw) if mode == "builder" else Tag(name=nm, **kw)
+                            t = K(builder=b, name=nm, **kw) if mode == "builder" else K(name=nm, **kw)
                             got = "ok " + int_tok_of_value(t.interesting_string_types)
                         except TypeError:
                             got = "TypeError"
-                        lines.append(f"c13 taginit {btok if mode == 'builder' else 'N'} {arg_tok(nm)} {'N' if ptok == 'omit' else ptok}")
+                        cmtok = "" if K is Tag else " m" + ".".join(str(cls_code(c[n])) for n in class_main(K))
+                        lines.append(f"c13 taginit {btok if mode == 'builder' else 'N'} {arg_tok(nm)} {'N' if ptok == 'omit' else ptok}{cmtok}")
                         real.append(got)
-                        cases.append({"op": "config", "what": "Tag()", "builder": bcls.__name__ if mode == "builder" else None, "arg": argname,
+                        cases.append({"op": "config", "what": K.__name__ + "()", "builder": bcls.__name__ if mode == "builder" else None, "arg": argname,
                                       "name": nm, "param": ptok})
-                        ctx.case(("TAG", bcls.__name__, argtok, nm, ptok, mode))
-                        ctx.count("config:Tag-" + mode)
-                        # property: with a builder whose table is a dict, the table decides; without one, the argument is kept
+                        ctx.case(("TAG", bcls.__name__, argtok, nm, ptok, mode, K.__name__))
+                        ctx.count("config:" + K.__name__ + "-" + mode)
+                        # property: with a builder whose table is a dict, the table decides (own class for a container, else what the
+                        # tag's CLASS counts as main content); without one, the argument is kept
                         if mode == "builder" and eff is not None:
-                            want = "ok " + int_tok_of_value({c[n] for n in expected_interesting(eff, nm)[1]})
+                            want = "ok " + int_tok_of_value({c[n] for n in expected_interesting(eff, nm, class_main(K))[1]})
                         elif mode == "bare":
                             want = "ok " + int_tok_of_value(pval)
                         else:
@@ -1487,7 +1680,7 @@ def stream_nesting(ctx, n_docs):
         recipe = {"markup": markup, "config": cfg, "ops": []}
         for t in all_nodes(soup):
             if is_tag(t):
-                set_exp(t, expected_interesting(sc, t.name))
+                set_exp(t, exp_for(t, sc))
         check_ancestor_rule(ctx, recipe, soup, sc, "nesting")
         live_sc = soup.builder.string_containers
         live_pres = soup.builder.preserve_whitespace_tags
@@ -1673,6 +1866,42 @@ def run_heap_case(ctx, case, stream="heap"):
     return w
 
 
+def relabel(labels):
+    """model labels of strings are `s<v.v>`; heapsim's are the same texts"""
+    return list(labels)
+
+
+def heap_iter_run(w, label, o, tspec, templates):
+    """for s in o._all_strings(False, types): <edit s>  ->  (labels handed out, final contents of the live tags, oracle)"""
+    e = E()
+    sel = o_selector(o, norm_tspec(tspec))
+    want = [w.label(x) for x in o_strings_below(o) if sel(type(x))]
+    kw = {} if tspec[0] == "d" else {"types": e["el"].PageElement.default if tspec[0] == "D" else types_value(tspec)}
+    got = []
+    it = o.strings if tspec[0] == "d" else o._all_strings(False, **kw)
+    k = 0
+    try:
+        for x in it:
+            lab = w.label(x)
+            got.append(lab)
+            t = templates[k % len(templates)]
+            k += 1
+            if t != "_":
+                st = w.apply(t.replace("$", lab))
+                if st != "ok":
+                    got.append(st)
+                    break
+            if k > 500:
+                got.append("<unbounded>")
+                break
+    except RecursionError:
+        raise
+    except Exception as ex:   # the iteration itself raised after an edit
+        got.append(f"<raised {type(ex).__name__}>")
+    final = {l: w.labels(x.contents) for l, x in w.live() if is_tag(x)}
+    return got, final, want
+
+
 def heap_start(r):
     from . import heapsim
     if r.random() < 0.35:
@@ -1692,6 +1921,7 @@ def stream_heap(ctx, n_hist):
     from collections import Counter
     e = E()
     lines, metas = [], []
+    iter_lines, iter_meta = [], []
     for hi in range(n_hist):
         r = ctx.rng("heap", hi)
         state = r.getstate()
@@ -1744,7 +1974,45 @@ def stream_heap(ctx, n_hist):
             ctx.nontrivial.add(5_000_000 + hi)
         lines.append((kinds, ops, classes, interesting, qtoks))
         metas.append((case, qs))
+        # the consumer edits the string it was just handed while iterating (a history of (yield, edit) steps)
+        cands = [(l, o) for l, o in w.live() if is_tag(o) and sum(1 for _ in o_strings_below(o)) >= 2]
+        if cands:
+            label, o = r.choice(cands)
+            tspec = r.choice([("d",), ("n",), ("n",), rand_tspec_noiter(r, list(dict.fromkeys(type(x) for x in o_strings_below(o))))])
+            templates = []
+            for ti_ in range(24):
+                k = r.choice(("ex", "de", "rw", "rw", "ia", "ib", "_"))
+                templates.append("_" if k == "_" else f"{k}:$" if k in ("ex", "de") else f"{k}:$:p{5000 + ti_}")
+            icase = case | {"op": "heap-iter", "receiver": label, "types": types_desc(tspec), "edits": templates}
+            got, final, want = heap_iter_run(w, label, o, tspec, templates)
+            ctx.case(("HITER", hi))
+            ctx.count("heap-iter:runs")
+            for t in templates[:len(got)]:
+                ctx.count("heap-iter:edit-" + t.split(":")[0])
+            if got != want:
+                ctx.count("heap-iter:oracle-differs")
+                if sum(1 for v in ctx.violations if v["stream"] == "heap-iter") < 6:
+                    ctx.violation("iterating the strings of an element while editing each string as it is handed out does not yield exactly "
+                                  "the interesting strings that were beneath the element, in document order", case=icase,
+                                  expected=want, observed=got, stream="heap-iter")
+            iter_lines.append(f"c13 iter {kinds} {';'.join(ops) if ops else '-'} " + heap_line("heap", kinds, ops, classes, interesting, []).split(" ")[5]
+                              + " " + heap_line("heap", kinds, ops, classes, interesting, []).split(" ")[6]
+                              + f" {label} {types_tok(norm_tspec(tspec))} {';'.join(templates)}")
+            iter_meta.append((icase, got, final, want))
     drv = Driver()
+    rep = drv.ask(iter_lines)
+    for (icase, got, final, want), ans in zip(iter_meta, rep):
+        parts = ans.split(" | ")
+        mkids = dict(x.split(":", 1) for x in parts[1].split(",")) if len(parts) == 2 and parts[1] else {}
+        ok = len(parts) == 2 and parts[0] == (".".join(got) if got else "-") and all(mkids.get(t) == ks for t, ks in final.items())
+        if not ok:
+            ctx.corr_disagreements += 1
+            ctx.count("heap-iter:model-disagrees")
+            if sum(1 for v in ctx.violations if v["stream"] == "heap-iter-correspondence") < 4 and \
+                    not any(v["case"] == icase for v in ctx.violations):
+                ctx.violation("Lean generator-protocol mirror (successor read before the yield) and implementation disagree", case=icase,
+                              observed={"yielded": got, "contents": final}, expected=want, model=ans[:600],
+                              stream="heap-iter-correspondence", no_failing_input=(got == want))
     reported = 0
     for mode in ("heap", "tree"):
         rep = drv.ask([heap_line(mode, *l) for l in lines])
@@ -1881,7 +2149,7 @@ def replay(path):
             bad += got != want
         for t in all_nodes(soup):
             if is_tag(t):
-                set_exp(t, expected_interesting(sc, t.name))
+                set_exp(t, exp_for(t, sc))
         ordinary = [t for t in all_nodes(soup) if is_tag(t) and t.name not in sc]
         for t in ordinary[:1]:
             want_txt = "".join(str.__str__(w[1]) for w in o_all_strings(t, False, ("d",)))
@@ -1906,6 +2174,29 @@ def replay(path):
             print(json.dumps(x["case"]), "| implementation:", x["observed"], "| property demands:", x["expected"])
         print(f"{len(hits)} failing case(s) in the configuration streams; the recorded case {'fails again' if same else 'does not fail in this run'}")
         return 1 if hits else 0
+    if c.get("op") == "tree-iter":
+        rc_ = c["recipe"]
+        soup, sc = build({k: v for k, v in rc_.items() if k != "iter"})
+        it = rc_["iter"]
+        print("tree:", ascii(soup.decode()))
+        got, want, ok = tree_iter_run(soup, tuple(it["path"]), types_from_desc(it["types"]), it["edits"])
+        print(f"for s in <element at path {it['path']}>." + ("strings" if it["types"] == ["d"] else f"_all_strings(False, types={it['types']})")
+              + f": edit s by {it['edits']} (in turn)")
+        print("implementation handed out:", [ascii(x) for x in got])
+        print("property demands:        ", [ascii(x) for x in want])
+        return 0 if ok else 1
+    if c.get("op") == "heap-iter":
+        w = run_heap_case(None, c)
+        if w is None or c["receiver"] not in w.objs:
+            print("the recorded history no longer runs to the end on this tree")
+            return 1
+        o = w.objs[c["receiver"]]
+        got, final, want = heap_iter_run(w, c["receiver"], o, types_from_desc(c["types"]), c["edits"])
+        print("history:", c["kinds"], ";".join(c["ops"]), "classes:", c["classes"])
+        print(f"for s in {c['receiver']}._all_strings(False, types={c['types']}): edit s by", c["edits"][:max(1, len(want))], "(in turn; $ = s)")
+        print("implementation handed out:", got)
+        print("property demands:        ", want)
+        return 0 if got == want else 1
     if c.get("op") == "heap":
         w = run_heap_case(None, c)
         if w is None:
@@ -1924,7 +2215,7 @@ def replay(path):
         print("property demands:", want, "" if ident else "(and the very string objects of the tree)")
         return 0 if (real == want and ident) else 1
     if c.get("op") == "ancestor-rule":
-        soup, sc = build(c["recipe"] | {"ops": []})
+        soup, sc = build(c["recipe"] if c["recipe"].get("post") else c["recipe"] | {"ops": []})
         bad = ancestor_rule_failures(soup, sc)
         print("markup:", ascii(c["recipe"]["markup"]), "config:", c["recipe"]["config"])
         for path, got, want in bad:
